@@ -167,6 +167,14 @@ def build_driver(group):
     bdir = os.path.join(ROOT, 'ocaml', '_build', group)
     os.makedirs(bdir, exist_ok=True)
     shutil.copy(os.path.join(gdir, 'Extract.v'), os.path.join(bdir, 'Extract.v'))
+    # the modules the extraction file requires must be up to date with the regenerated tables
+    mods = set()
+    for line in strip_coq_comments(open(os.path.join(gdir, 'Extract.v')).read()).split('.\n'):
+        m = re.match(r'\s*Require Import (.*)', line.strip(), re.S)
+        if m: mods.update(x for x in m.group(1).split() if x.split('.')[0] in QDIRS)
+    if mods:
+        okm, outm, _ = coq_make([x.replace('.', '/') + '.vo' for x in sorted(mods)])
+        if not okm: return False, 'coq build of the extraction dependencies failed: ' + outm[-1200:], None
     rc, out, dt = sh('timeout 600 coqc %s Extract.v' % qflags(os.path.relpath(COQ, bdir) + '/'), cwd=bdir, timeout=630)
     if rc != 0: return False, 'extraction failed: ' + out[-1500:], None
     h = hashlib.sha256()
